@@ -1,7 +1,8 @@
 (** Property C07, part 2: connection of the [react] folds of Actions.v to the token loop of
     [Parser::parse] ([parse_loop]) for a proved class of token lists: lines made of separate short
     flags ([flag_tokens]: each token is [-x] where [x] is an ASCII, non-digit short of an argument
-    that takes no value, in a command without subcommands). *)
+    that takes no value, in a command without subcommands) and, more generally, lines made of
+    short-flag clusters ([cluster_tokens]: [-vvqv]). *)
 From ClapModel Require Import Base.Bytes Base.Machine Base.Utf8 Lex.OsStrExtModel.
 From ClapModel Require Import Parse.Cmd Parse.Build Parse.Valid Parse.Matcher Parse.Errors Parse.Validator Parse.Parser.
 From ClapModel Require Import ParseProofs.Actions.
@@ -178,3 +179,127 @@ Module LoopExamples.
   Example tokens_vvq : flag_tokens c [[45; 118]; [45; 113]; [45; 118]] [flag_occ v; flag_occ q; flag_occ v].
   Proof. repeat constructor; try reflexivity; discriminate. Qed.
 End LoopExamples.
+
+(** ** Clusters: [-vvqv] *)
+Inductive cluster_flags (c : cmd) : bytes -> list occ -> Prop :=
+| cf_nil : cluster_flags c [] []
+| cf_cons ch a r os : ch < 128 -> get_short c ch = Some a -> a_takes_value a = false ->
+    cluster_flags c r os -> cluster_flags c (ch :: r) (flag_occ a :: os).
+
+Lemma sf_next_ascii ch r : ch < 128 -> sf_next (ch :: r) = Some (inl ch, r).
+Proof. intros H. unfold sf_next, utf8_step. apply N.ltb_lt in H. rewrite H. reflexivity. Qed.
+
+Lemma cluster_known c : forall r os, cluster_flags c r os -> forall fuel, sf_any_unknown c fuel r = false.
+Proof.
+  induction 1 as [|ch a r os Hlt Hg Htv Hc IH]; intros fuel; destruct fuel as [|f]; try reflexivity.
+  cbn [sf_any_unknown]. rewrite (sf_next_ascii ch r Hlt). unfold contains_short. rewrite Hg. cbn [is_some negb orb]. apply IH.
+Qed.
+
+Lemma short_loop_cluster c : forall r os, cluster_flags c r os -> forall fuel ret vaf st, (length r < fuel)%nat ->
+  short_loop c fuel r ret vaf st =
+  (do st' <- react_all c os st;
+   ROk (st', match os with [] => ret | _ => PRValuesDone end, match os with [] => vaf | _ => true end)).
+Proof.
+  induction 1 as [|ch a r os Hlt Hg Htv Hc IH]; intros fuel ret vaf st Hf.
+  - destruct fuel as [|f]; [cbn in Hf; lia|]. reflexivity.
+  - destruct fuel as [|f]; [cbn in Hf; lia|]. cbn [short_loop]. rewrite (sf_next_ascii ch r Hlt), Hg, Htv. cbn [negb].
+    cbn [react_all flag_occ o_ident o_src o_arg o_raw o_ti].
+    destruct (react c (Some IShort) SCmdLine a [] None st) as [[st1 pr]|e st1|site] eqn:Er; cbn [rbind fst snd]; try reflexivity.
+    rewrite IH by (cbn [length] in Hf; lia). rewrite (react_ok_pr _ _ _ _ _ _ _ _ _ Er).
+    destruct (react_all c os st1); cbn [rbind]; try reflexivity. destruct os; reflexivity.
+Qed.
+
+(** a cluster token: [-] followed by at least one flag character; the first is neither [-] nor a digit *)
+Definition cluster_token (c : cmd) (tok : bytes) (os : list occ) : Prop :=
+  exists ch r, tok = 45 :: ch :: r /\ ch <> 45 /\ is_digit ch = false /\ cluster_flags c (ch :: r) os.
+
+Lemma parse_short_cluster c ch r os pos vaf st :
+  is_digit ch = false -> cluster_flags c (ch :: r) os -> fs_skip st = 0 ->
+  parse_short_arg c (ch :: r) PSValuesDone pos vaf st = (do st' <- react_all c os st; ROk (st', PRValuesDone, true)).
+Proof.
+  intros Hd Hc Hskip.
+  assert (Hnum : sf_is_negative_number (ch :: r) = false).
+  { unfold sf_is_negative_number, is_number. cbn [is_number_aux]. rewrite Hd.
+    replace (0 <? 0) with false by reflexivity. rewrite !andb_false_r. reflexivity. }
+  unfold parse_short_arg. cbn [state_arg rbind].
+  rewrite Hnum, !andb_false_r. rewrite (cluster_known c _ _ Hc), !andb_false_r.
+  rewrite Hskip. rewrite N.min_0_l. cbn [N.to_nat sf_advance_by expect rbind].
+  assert (Est : st <| fs_skip := 0 |> = st) by (destruct st; cbn in Hskip; subst; reflexivity).
+  rewrite Est. rewrite (short_loop_cluster c _ _ Hc) by lia.
+  inversion Hc; subst. reflexivity.
+Qed.
+
+Lemma parse_loop_cluster_token c tok os rest pos vaf st :
+  c_subs c = [] -> cluster_token c tok os -> fs_skip st = 0 ->
+  parse_loop c (tok :: rest) (mkL PSValuesDone pos vaf false) st =
+  (do st' <- react_all c os st; parse_loop c rest (mkL PSValuesDone pos true false) st').
+Proof.
+  intros Hs [ch [r [Et [Hne [Hd Hc]]]]] Hskip. subst tok.
+  pose proof (parse_short_cluster c ch r os pos vaf st Hd Hc Hskip) as Hpsa.
+  assert (E45 : (ch =? 45) = false) by (apply N.eqb_neq; exact Hne).
+  assert (Hesc : is_escape (45 :: ch :: r) = false).
+  { unfold is_escape, DASH. cbn [beq]. rewrite E45. reflexivity. }
+  assert (Hlong : to_long (45 :: ch :: r) = None).
+  { unfold to_long, strip_prefix, DASH. cbn [starts_with]. rewrite E45. reflexivity. }
+  assert (Hshort : to_short (45 :: ch :: r) = Some (ch :: r)).
+  { unfold to_short, strip_prefix, DASH. cbn [starts_with length skipn].
+    change ((45 =? 45) && true) with true. cbn iota. cbn [starts_with]. rewrite E45. reflexivity. }
+  cbn [parse_loop]. cbn [l_trailing l_pst l_vaf l_pos].
+  rewrite (possible_subcommand_nosubs c _ vaf Hs), Hesc, Hlong, Hshort, Hpsa.
+  destruct (is_set s_sub_precedence c); cbn [orb];
+  (destruct (react_all c os st) as [st1|e st1|site]; cbn [rbind fst snd]; reflexivity).
+Qed.
+
+Lemma react_all_app c : forall os1 os2 st, react_all c (os1 ++ os2) st = (do st1 <- react_all c os1 st; react_all c os2 st1).
+Proof.
+  induction os1 as [|o os1 IH]; intros os2 st; [reflexivity|]. cbn [app react_all].
+  destruct (react c _ _ _ _ _ st) as [[st1 pr]|e st1|site]; cbn [rbind fst]; try reflexivity. apply IH.
+Qed.
+
+Lemma react_all_fs c : forall os st st', react_all c os st = ROk st' -> fs_skip st' = fs_skip st.
+Proof.
+  induction os as [|o os IH]; intros st st' H; cbn [react_all] in H; [inversion H; reflexivity|].
+  destruct (react c _ _ _ _ _ st) as [[st1 pr]|e st1|site] eqn:Er; cbn [rbind fst] in H; try discriminate.
+  rewrite (IH _ _ H). apply (react_fs _ _ _ _ _ _ _ _ _ Er).
+Qed.
+
+(** lines made of flag clusters, e.g. [-vv -q -vqv] *)
+Inductive cluster_tokens (c : cmd) : list bytes -> list occ -> Prop :=
+| ct_nil : cluster_tokens c [] []
+| ct_cons tok os toks os' : cluster_token c tok os -> cluster_tokens c toks os' ->
+    cluster_tokens c (tok :: toks) (os ++ os').
+
+Theorem parse_loop_cluster_tokens c : c_subs c = [] -> forall toks os, cluster_tokens c toks os -> forall pos vaf st,
+  fs_skip st = 0 ->
+  parse_loop c toks (mkL PSValuesDone pos vaf false) st = (do st' <- react_all c os st; ROk (LDone st')).
+Proof.
+  intros Hs. induction 1 as [|tok os toks os' Ht Hts IH]; intros pos vaf st Hskip.
+  - reflexivity.
+  - rewrite (parse_loop_cluster_token c tok os toks pos vaf st Hs Ht Hskip). rewrite react_all_app.
+    destruct (react_all c os st) as [st1|e st1|site] eqn:Er; cbn [rbind]; try reflexivity.
+    apply IH. rewrite (react_all_fs _ _ _ _ Er). exact Hskip.
+Qed.
+
+(** [-vvv...v] (one cluster of n+1 [v]s) to a built Count flag stores min(n+1,255) *)
+Theorem parse_loop_count_cluster c ch a n pos vaf st :
+  plain_short_flag c ch a -> count_flag a -> ~ In (a_id a) (groups_for_arg c (a_id a)) ->
+  wf_m (mt st) -> mt_pending (mt st) = None -> fs_skip st = 0 -> groups_of (a_id a) (mt st) = None ->
+  exists st', parse_loop c [45 :: repeat ch (S n)] (mkL PSValuesDone pos vaf false) st = ROk (LDone st') /\
+    groups_of (a_id a) (mt st') = enc (N.of_nat (S n)).
+Proof.
+  intros [Hs [Hlt [Hne [Hd [Hg Htv]]]]] Hcf Hng Hwf Hpend Hskip Hgr.
+  assert (Hcl : forall k, cluster_flags c (repeat ch k) (repeat (flag_occ a) k)).
+  { induction k; cbn [repeat]; constructor; assumption. }
+  assert (Hts : cluster_tokens c [45 :: repeat ch (S n)] (repeat (flag_occ a) (S n) ++ [])).
+  { constructor; [|constructor]. exists ch, (repeat ch n). repeat split; try assumption. apply (Hcl (S n)). }
+  rewrite app_nil_r in Hts.
+  rewrite (parse_loop_cluster_tokens c Hs _ _ Hts pos vaf st Hskip).
+  destruct (count_total c a (Some IShort) SCmdLine None Hcf Hng (S n) st 0 Hwf Hpend Hgr) as [st' [E [_ [_ G]]]].
+  unfold flag_occ in *. rewrite E. cbn [rbind]. exists st'. split; [reflexivity|exact G].
+Qed.
+
+Module ClusterExamples.
+  Import Examples.
+  Example cluster_vqv : cluster_token c [45; 118; 113; 118] [flag_occ v; flag_occ q; flag_occ v].
+  Proof. exists 118, [113; 118]. repeat split; try discriminate. repeat constructor. Qed.
+End ClusterExamples.
